@@ -1,3 +1,8 @@
 module gcvaudit
 
 go 1.23
+
+require (
+	github.com/bitly/go-simplejson v0.5.1
+	github.com/pierrec/lz4/v4 v4.1.22
+)
